@@ -60,11 +60,22 @@ func runC12(c *Ctx) {
 		for _, x := range rc.Schedule {
 			ss = append(ss, fmt.Sprint(x))
 		}
-		cmd := exec.Command(rc.Bin, "-tier", c.Tier, "-driver", rc.Driver, "-schedule", strings.Join(ss, ","))
-		cmd.Env = append(os.Environ(), "GOMAXPROCS=1", "GORACE=halt_on_error=0 exitcode=0")
-		out, _ := cmd.CombinedOutput()
-		if i := bytes.Index(out, []byte(`"failure":"`)); i >= 0 && !bytes.Contains(out, []byte(`"failure":""`)) {
-			c.R.Report(&ev.Fail{Scenario: c.Replay.Scenario, Case: rc, API: rc.Driver, Shape: "replay", What: trunc(string(out[i:]), 600)})
+		// The race detector has no false positives under the shim's happens-before edges, but it can miss a race in one
+		// run of a schedule (its shadow memory keeps a bounded, partly randomly evicted access history: the same
+		// schedule of a racy driver is reported in roughly half of the runs). A replay of the -race build therefore
+		// repeats the schedule until the detector reports (at most 12 times); the plain build replays once.
+		attempts := 1
+		if strings.Contains(rc.Bin, "check12race") {
+			attempts = 12
+		}
+		for i := 0; i < attempts; i++ {
+			cmd := exec.Command(rc.Bin, "-tier", c.Tier, "-driver", rc.Driver, "-schedule", strings.Join(ss, ","))
+			cmd.Env = append(os.Environ(), "GOMAXPROCS=1", "GORACE=halt_on_error=0 exitcode=0")
+			out, _ := cmd.CombinedOutput()
+			if i := bytes.Index(out, []byte(`"failure":"`)); i >= 0 && !bytes.Contains(out, []byte(`"failure":""`)) {
+				c.R.Report(&ev.Fail{Scenario: c.Replay.Scenario, Case: rc, API: rc.Driver, Shape: "replay", What: trunc(string(out[i:]), 600)})
+				break
+			}
 		}
 		return
 	}
